@@ -2,7 +2,7 @@
 from lib import *
 from batches import core
 
-TRUSTED = list(core.TRUSTED) + ['encoding', 'address', 'from', 'CallFrameInstructionIter', 'next', 'lsda_encoding', 'personality_with_encoding', 'fde_address_encoding', 'is_signal_trampoline', 'instructions', 'lsda']
+TRUSTED = list(core.TRUSTED) + ['encoding', 'address', 'from', 'CallFrameInstructionIter', 'next', 'lsda_encoding', 'personality_with_encoding', 'fde_address_encoding', 'is_signal_trampoline', 'instructions', 'lsda', 'RawRngListIter']
 VERUS_ARGS = ['--rlimit', '40']
 # CallFrameInstruction::from alone has 18 genuine failing obligations (finding F7): report all of them, not the first 3
 MULTIPLE_ERRORS = 40
@@ -183,7 +183,7 @@ impl<'a, R: Reader<Offset = usize>> CallFrameInstructionIter<'a, R> {
     pub fn next(&mut self) -> (res: Result<Option<CallFrameInstruction<R::Offset>>>)
         ensures
             res matches Ok(Some(i)) ==> old(self).rest().len() > 0 && i == old(self).rest()[0] && final(self).rest() == old(self).rest().skip(1),
-            res matches Ok(None) ==> old(self).rest().len() == 0 && final(self).rest().len() == 0,
+            res matches Ok(None) ==> old(self).rest().len() == 0 && final(self).rest() == old(self).rest(),
             res is Err ==> final(self).rest().len() == 0,
     { unimplemented!() }
 }
@@ -254,7 +254,7 @@ use crate::vspec::*;''')
     sk.add('read::cfi', rc.item(r'^pub struct FrameDescriptionEntry<R, Offset').clean(offset=False, rejrec=['R', 'Offset']))
     fde = rc.item(r'^impl<R: Reader> FrameDescriptionEntry<R> \{\s*pub fn offset', label='FrameDescriptionEntry')
     fde.keep_only(['cie', 'instructions', 'initial_address', 'len', 'lsda'])
-    fde.extbody(['instructions', 'lsda'])
+    fde.extbody(['instructions', 'lsda', 'RawRngListIter'])
     fde.clean()
     fde.insert_members('''    pub closed spec fn cie_v(&self) -> CommonInformationEntry<R> { self.cie }
     pub closed spec fn initial(&self) -> u64 { self.initial_address }
@@ -301,6 +301,75 @@ use crate::cspec::*;''')
     ex.splice('from', ret='res', requires=[CA_TOTAL], ensures=[
         '[C12:expr-conv] res matches Ok(e) ==> expr_conv(from_expression.0.rv(), encoding, unit is Some, e)'])
     sk.add('write::op::convert', ex)
+
+
+def iter_model(name, entry, generic_entry):
+    return f'''
+// ---- model of read::{name}<R> (decoding of the raw list is property C08's business): a ghost sequence `rest()` of the
+// entries that still decode; `next` pops it; end of list / decode error end it.
+#[verifier::external_body]
+#[verifier::reject_recursive_types(R)]
+pub struct {name}<R: Reader> {{ input: R }}
+impl<R: Reader<Offset = usize>> {name}<R> {{
+    pub uninterp spec fn rest(&self) -> Seq<{entry}>;
+    #[verifier::external_body]
+    pub fn next(&mut self) -> (res: Result<Option<{generic_entry}>>)
+        ensures
+            res matches Ok(Some(i)) ==> old(self).rest().len() > 0 && i == old(self).rest()[0] && final(self).rest() == old(self).rest().skip(1),
+            res matches Ok(None) ==> old(self).rest().len() == 0 && final(self).rest() == old(self).rest(),
+            res is Err ==> final(self).rest().len() == 0,
+    {{ unimplemented!() }}
+}}
+'''
+
+
+# helper precondition: the caller's address function leaves an unrelocated (Constant) value unchanged.  gimli applies it
+# to range/location-list *offsets* as well (they are parsed with read_address) and documents that these "will be
+# Address::Constant"; an offset must not change, so the function has to be the identity on what it maps to Constant.
+CA_CONST_ID = '[C12:convert-address-constant-identity] forall|a: u64, c: u64| call_ensures(convert_address, (a,), Some(Address::Constant(c))) ==> c == a'
+
+
+def populate_lists(ctx, sk):
+    rr = Source('read/rnglists.rs', ctx)
+    wr = Source('write/range.rs', ctx)
+    sk.mods['read']['uses'] += '\npub use self::rnglists::*;'
+    sk.module('read::rnglists', '''use crate::common::{DebugAddrIndex, Encoding};
+use crate::read::{Error, Reader, ReaderOffset, Result};''')
+    sk.add('read::rnglists', rr.item(r'^pub enum RawRngListEntry<T>').clean())
+    sk.add('read::rnglists', iter_model('RawRngListIter', 'RawRngListEntry<usize>', 'RawRngListEntry<R::Offset>'), label='RawRngListIter(model)')
+    sk.mods['write']['uses'] += '\npub use self::range::*;'
+    sk.add('write', 'unsafe impl Structural for Address {}', label='Structural(Address)')
+    sk.module('write::range', '''use crate::common::Encoding;
+use crate::write::{Address, Error, Result};''')
+    sk.add('write::range', wr.item(r'^pub struct RangeList\(').clean())
+    sk.add('write::range', wr.item(r'^pub enum Range \{').clean())
+    sk.module('write::range::convert', '''use super::*;
+use crate::read::{self, Reader};
+use crate::write::{ConvertError, ConvertResult};
+use crate::vspec::*;
+use crate::cspec::*;''')
+    rl = wr.item(r'^    impl RangeList \{', within=r'^mod convert \{', label='RangeList')
+    r_dyn(rl, 'fn from<R: Reader<Offset = usize>>(', 'fn from<R: Reader<Offset = usize>, ConvAddr>(', ') -> ConvertResult<Self> {', ') -> ConvertResult<Self> where ' + CA_BOUND + ' {')
+    rl.clean()
+    rl.own(OWN)
+    rl.insert_after('let convert_address = |x|', ' -> (cr: ConvertResult<Address>)\n requires ' + CA_TOTAL + '\n ensures cr matches Ok(a) ==> conv_addr(convert_address, x, a)\n')
+    rl.insert_after('let convert_address = |x', ': u64')
+    U = 'from_unit.model_id'
+    rl.splice('from', ret='res', requires=[CA_TOTAL, CA_CONST_ID], ensures=par([
+        f'[C12:rnglist-entries] res matches Ok(l) ==> rng_list_rel(convert_address, {U}, from.rest(), from_unit.low_pc != 0, l.0@)',
+    ]), loops={0: f'invariant 0 <= k <= full.len(), from.rest() == full.skip(k), forall|a: u64| call_requires(ca, (a,)), '
+                  'forall|a: u64, c: u64| call_ensures(ca, (a,), Some(Address::Constant(c))) ==> c == a, '
+                  'forall|x: u64| call_requires(convert_address, (x,)), forall|x: u64, r: ConvertResult<Address>| call_ensures(convert_address, (x,), r) ==> (r matches Ok(a) ==> conv_addr(ca, x, a)), '
+                  f'have_base_address == rng_hb(full.take(k), hb0), rng_list_rel(ca, {U}, full.take(k), hb0, ranges@),\n'
+                  ' ensures k == full.len(),\n decreases full.len() - k'},
+        before=[('let convert_address = |x', 'let ghost ca = convert_address; let ghost full = from.rest(); let ghost hb0 = from_unit.low_pc != 0; let ghost mut k: int = 0;'),
+                ('let range = match from_range {', 'let ghost hb_pre = have_base_address; proof { k = k + 1; assert(full.take(k).drop_last() =~= full.take(k - 1)); assert(full.take(k).last() == full[k - 1]); '
+                 'assert(full.skip(k - 1).skip(1) =~= full.skip(k)); assert(full.skip(k - 1)[0] == full[k - 1]); }'),
+                ('match range {', f'proof {{ assert(range_entry_rel(ca, {U}, full[k - 1], hb_pre, range)); }}'),
+                ('ranges.push(range);', 'let ghost old_ranges = ranges@;'),
+                ('Ok(RangeList(ranges))', 'proof { assert(full.take(k) =~= full); }')],
+        after=[('ranges.push(range);', 'proof { assert(ranges@.drop_last() =~= old_ranges); }')])
+    sk.add('write::range::convert', rl)
 
 
 def populate_write_cfi(ctx, sk):
@@ -384,9 +453,10 @@ use crate::cspec::*;''')
                   'cie.lsda_encoding == from_cie.aug_lsda(), cie.signal_trampoline == from_cie.aug_signal(), '
                   'cie.fde_address_encoding == (match from_cie.aug_fde_enc() { Some(e) => e, None => constants::DW_EH_PE_absptr }), '
                   '(match from_cie.aug_personality() { Some(pp) => (cie.personality matches Some(cp) && cp.0 == pp.0 && conv_addr(convert_address, pointer_value(pp.1), cp.1)), None => cie.personality is None }),\n'
-                  ' decreases full.len() - k'},
+                  ' ensures k == full.len(),\n decreases full.len() - k'},
         before=[('let mut offset = 0;', 'let ghost full = from_cie.insn_seq(); let ghost mut k: int = 0;'),
                 ('if let Some(instruction) = CallFrameInstruction::from(', LOOP_TOP),
+                ('cie.instructions.push(instruction);', f'proof {{ let rr = cfi_rows(full.take(k - 1), {CAF}, {DAF}); let x = (cfi_loc(full.take(k - 1), {CAF}), read_cfi_sem(full[k - 1], {CAF}, {DAF})); assert(row_sems(rr.push(x)) =~= row_sems(rr).push(x.1)); }}'),
                 ('Ok(cie)', LOOP_END)])
     sk.add('write::cfi::convert', cc)
     # ---- FrameDescriptionEntry::from
@@ -404,7 +474,7 @@ use crate::cspec::*;''')
                   f'offset as int == cfi_loc(full.take(k), {FCAF}), wfde_rows(fde.insns()) =~= cfi_rows(full.take(k), {FCAF}, {FDAF}), '
                   'conv_addr(convert_address, from_fde.initial(), fde.addr()), fde.len() as int == (from_fde.range() as u32) as int, '
                   '(match from_fde.lsda_v() { Some(p) => (fde.lsda matches Some(a) && conv_addr(convert_address, pointer_value(p), a)), None => fde.lsda is None }),\n'
-                  ' decreases full.len() - k'},
+                  ' ensures k == full.len(),\n decreases full.len() - k'},
         before=[('let mut offset = 0;', 'let ghost full = from_fde.insn_seq(); let ghost mut k: int = 0;'),
                 ('if let Some(instruction) = CallFrameInstruction::from(', LOOP_TOP),
                 ('Ok(fde)', LOOP_END)])
@@ -417,6 +487,7 @@ def populate(ctx, sk):
     populate_read_dwarf(ctx, sk)
     populate_write_cfi(ctx, sk)
     populate_write_op(ctx, sk)
+    populate_lists(ctx, sk)
     return sk
 
 
